@@ -724,8 +724,9 @@ def fuelFor (env : Env) (bz : Bytes) : Nat :=
   let fields := env.foldl (fun a e => a + (match e.defn with | .struct fs _ => fs.length | .alias _ => 1)) 0
   (bz.length + fields + 16) * (bz.length + 16)
 
-/-- `Codec.UnmarshalReflect` into a fresh value of the registered type `name`. -/
-def unmarshal (env : Env) (name : Bytes) (bz : Bytes) : Option Val :=
+/-- `Codec.UnmarshalReflect` into a fresh value of the registered type `name`,
+with explicit recursion fuel. -/
+def unmarshalF (fuel : Nat) (env : Env) (name : Bytes) (bz : Bytes) : Option Val :=
   match env.find? name with
   | none => none
   | some ent =>
@@ -743,8 +744,12 @@ def unmarshal (env : Env) (name : Bytes) (bz : Bytes) : Option Val :=
       | none => none
       | some hn =>
         let body := bz.drop hn
-        match dec env (fuelFor env bz) td body 1 su false 0 with
+        match dec env fuel td body 1 su false 0 with
         | none => none
         | some (v, n) => if n = body.length then some v else none
+
+/-- `Codec.UnmarshalReflect` (the fuel covers every loop, see `fuelFor`). -/
+def unmarshal (env : Env) (name : Bytes) (bz : Bytes) : Option Val :=
+  unmarshalF (fuelFor env bz) env name bz
 
 end GnoVerif.C20
